@@ -98,6 +98,12 @@ func (n *JNode) Build() any {
 			return (*stk.Stack)(nil)
 		case "cond":
 			return (*stk.Condition)(nil)
+		case "int2":
+			return (**int)(nil)
+		case "stack2":
+			return (**stk.Stack)(nil)
+		case "str3":
+			return (***string)(nil)
 		}
 		return (*int)(nil)
 	case "list":
@@ -170,7 +176,8 @@ func jBytes(s string) string {
 	return "(L [" + strings.Join(parts, ";") + "])"
 }
 
-var tnilTy = map[string]int{"int": 0, "str": 102, "stack": 100, "cond": 101}
+var tnilTy = map[string]int{"int": 0, "str": 102, "stack": 100, "cond": 101, "int2": 0, "stack2": 100, "str3": 102}
+var tnilDepth = map[string]int{"int2": 2, "stack2": 2, "str3": 3}
 
 func jcoqList(l []*JNode) string {
 	var es []string
@@ -227,7 +234,11 @@ func (n *JNode) Coq() string {
 		}
 		return fmt.Sprintf("(JLeaf (GOper (OpBuiltin %d%%N)))", n.Op.Builtin)
 	case "tnil":
-		return fmt.Sprintf("(JLeaf (GNilPtr 1 %d%%N))", tnilTy[n.P])
+		d := 1
+		if k, ok := tnilDepth[n.P]; ok {
+			d = k
+		}
+		return fmt.Sprintf("(JLeaf (GNilPtr %d %d%%N))", d, tnilTy[n.P])
 	case "other":
 		return "(JLeaf (GOther 999%N))"
 	case "list":
@@ -383,6 +394,18 @@ func renderAny(v any) *JNode {
 	case *stk.Condition:
 		if x == nil {
 			return &JNode{T: "tnil", P: "cond"}
+		}
+	case **int:
+		if x == nil {
+			return &JNode{T: "tnil", P: "int2"}
+		}
+	case **stk.Stack:
+		if x == nil {
+			return &JNode{T: "tnil", P: "stack2"}
+		}
+	case ***string:
+		if x == nil {
+			return &JNode{T: "tnil", P: "str3"}
 		}
 	}
 	return &JNode{T: "other", S: fmt.Sprintf("%T", v)}
@@ -691,6 +714,7 @@ func genMarshalRT(ctx *Ctx, emit func(any, string)) {
 type JKInput struct {
 	Recv  *JNode   `json:"recv,omitempty"`  // nil: uninitialised receiver
 	Mutex bool     `json:"mutex,omitempty"` // initialised receiver with its mutex enabled
+	VPol  bool     `json:"vpol,omitempty"`  // initialised receiver whose own validity policy is failing (it is initialised all the same)
 	In    []*JNode `json:"in"`
 }
 
@@ -758,6 +782,9 @@ func runMarshalJunk(raw json.RawMessage) (*Result, error) {
 		r = in.Recv.Build().(stk.Stack)
 		if in.Mutex {
 			r.SetMutex()
+		}
+		if in.VPol {
+			r.SetValidityPolicy(func(...any) error { return fmt.Errorf("the receiver's validity policy fails") })
 		}
 	}
 	args := []any{}
@@ -871,6 +898,7 @@ func runMarshalJunk(raw json.RawMessage) (*Result, error) {
 	tag(in.Recv != nil, "recv-init")
 	tag(in.Recv == nil, "recv-zero")
 	tag(in.Mutex, "recv-mutex")
+	tag(in.VPol, "recv-failing-validity-policy")
 	tag(panicked, "panic")
 	tag(merr, "error")
 	tag(!merr, "no-error")
@@ -987,7 +1015,7 @@ func (g *jkGen) scalar() *JNode {
 	case x < 80:
 		return &JNode{T: "nil"}
 	case x < 88:
-		return &JNode{T: "tnil", P: []string{"int", "str", "stack", "cond"}[g.r.Intn(4)]}
+		return &JNode{T: "tnil", P: []string{"int", "str", "stack", "cond", "int2", "stack2", "str3"}[g.r.Intn(7)]}
 	}
 	return g.operator()
 }
@@ -1124,6 +1152,10 @@ func genMarshalJunk(ctx *Ctx, emit func(any, string)) {
 		{jstr("CONDITION"), jstr("k"), jsop("in", "custom"), jlist(jstr("LIST"), jint(1))},
 		{jstr("AND"), jlist(jstr("CONDITION"), jstr("k"), jnil(), jnil())},
 		{jstr("AND"), jlist(jstr("CONDITION"), jstr("k"), jtnil("int"), jtnil("stack"))},
+		// typed nils of pointer-to-pointer types, as elements and as a Condition's expression
+		{jstr("AND"), jtnil("int2"), jtnil("stack2"), jtnil("str3")},
+		{jstr("LIST"), jlist(jstr("CONDITION"), jstr("k"), eq, jtnil("stack2"))},
+		{jstr("CONDITION"), jstr("k"), eq, jtnil("str3")},
 		{jstr("AND"), jlist(jstr("CONDITION"), jstr("k"), eq, jlist(jstr("CONDITION"), jstr("j"), jop(2), jint(3)))},
 		{jstr("AND"), jlist(jstr("CONDITION"), jstr("k"), eq, jlist(jstr("CONDITION"), jstr("j")))},
 		// a well-formed outer row whose expression is a full-length row with a non-operator in the operator position
@@ -1147,6 +1179,7 @@ func genMarshalJunk(ctx *Ctx, emit func(any, string)) {
 		emit(&JKInput{In: in}, "exhaustive")
 		emit(&JKInput{Recv: &JNode{T: "stack", Kind: "AND", Els: []*JNode{jstr("old")}}, In: in}, "exhaustive")
 		emit(&JKInput{Recv: &JNode{T: "stack", Kind: "AND", Els: []*JNode{jstr("old")}}, Mutex: true, In: in}, "exhaustive")
+		emit(&JKInput{Recv: &JNode{T: "stack", Kind: "OR", Cap: 2, Els: []*JNode{jstr("old")}}, VPol: true, In: in}, "exhaustive")
 	}
 	// exhaustive: every list of length 1..3 over the 10-symbol alphabet
 	// (three symbols are lists, so nesting depth 2), bare and for length <= 2
@@ -1176,7 +1209,7 @@ func genMarshalJunk(ctx *Ctx, emit func(any, string)) {
 			in = []*JNode{top} // Marshal(u) form
 		}
 		rc := g.receiver()
-		emit(&JKInput{Recv: rc, Mutex: rc != nil && g.r.Pct(35), In: in}, "random")
+		emit(&JKInput{Recv: rc, Mutex: rc != nil && g.r.Pct(35), VPol: rc != nil && g.r.Pct(30), In: in}, "random")
 	}
 }
 
